@@ -157,6 +157,9 @@ func (m *PublishMessage) Decode(src []byte) (int, error) {
 		return total, err
 	}
 
+	// Only the bytes of this message are decoded
+	src = m.dbuf
+
 	n := 0
 
 	m.topic, n, err = readLPBytes(src[total:])
@@ -173,6 +176,9 @@ func (m *PublishMessage) Decode(src []byte) (int, error) {
 	// QoS level is 1 or 2
 	if m.QoS() != 0 {
 		//m.packetId = binary.BigEndian.Uint16(src[total:])
+		if len(src) < total+2 {
+			return total, fmt.Errorf("publish/Decode: Insufficient buffer size. Expecting %d, got %d", total+2, len(src))
+		}
 		m.packetID = src[total : total+2]
 		total += 2
 	}
